@@ -141,3 +141,35 @@ Definition product_block (global : option (list (bool * Z))) (product : option (
   end.
 (* globalBlockHandler: refuse iff the client address is in the global table (membership is C19's subject) *)
 Definition global_block (in_table : bool) : bool := in_table.
+
+(* ================= block: rule file loader (product_rule_load.go, action.go) + handler =================
+   A rule of a rule file: cond 0 = builds and is false for the request, 1 = builds and is true, 2 = does not build,
+   3 = field missing; cmd as written (has_cmd false = field missing); nparams -1 = "params" missing, else its length;
+   name -1 = missing, else an identifier. *)
+Record frule := { fr_cond : Z; fr_has_cmd : bool; fr_cmd : bytes; fr_nparams : Z; fr_name : Z }.
+Definition CLOSE_ : bytes := [67; 76; 79; 83; 69].
+Definition ALLOW_ : bytes := [65; 76; 76; 79; 87].
+(* blockRuleCheck + ActionFileCheck + condition.Build: the command must be exactly "CLOSE" or "ALLOW", without params *)
+Definition frule_ok (r : frule) : bool :=
+  ((fr_cond r =? 0) || (fr_cond r =? 1)) && (0 <=? fr_name r) && fr_has_cmd r
+  && (bytes_eqb (fr_cmd r) CLOSE_ || bytes_eqb (fr_cmd r) ALLOW_) && (fr_nparams r =? 0).
+Fixpoint names_unique (l : list Z) : bool :=
+  match l with [] => true | n :: r => negb (existsb (Z.eqb n) r) && names_unique r end.
+Definition flist_ok (l : list frule) : bool := forallb frule_ok l && names_unique (map fr_name l).
+Definition ffile := (option (list frule) * option (list frule))%type.     (* rules of product "global", of the request's product *)
+Definition ffile_ok (f : ffile) : bool :=
+  match fst f with Some g => flist_ok g | None => true end && match snd f with Some p => flist_ok p | None => true end.
+(* actionConvert / ruleConvert: the command is stored as written; the handler knows exactly "ALLOW" and "CLOSE" *)
+Definition fconv (r : frule) : bool * Z :=
+  (fr_cond r =? 1, if bytes_eqb (fr_cmd r) ALLOW_ then 0 else if bytes_eqb (fr_cmd r) CLOSE_ then 1 else 2).
+Definition ftable (f : ffile) : option (list (bool * Z)) * option (list (bool * Z)) :=
+  (option_map (map fconv) (fst f), option_map (map fconv) (snd f)).
+(* loadProductRuleConf for each file in turn (a file that fails to load leaves the table as it was), each followed by
+   one request through productBlockHandler: (loaded, closed) per step *)
+Fixpoint block_steps (tbl : option (list (bool * Z)) * option (list (bool * Z))) (files : list ffile) : list (bool * bool) :=
+  match files with
+  | [] => []
+  | f :: r => let ok := ffile_ok f in
+              let tbl' := if ok then ftable f else tbl in
+              (ok, product_block (fst tbl') (snd tbl')) :: block_steps tbl' r
+  end.
